@@ -376,6 +376,12 @@ func xs(rs []Rec) []float64 {
 func genAxis(t *rapid.T, label string) Axis {
 	a := Axis{Start: float64(rapid.IntRange(-16, 16).Draw(t, label+"start")) / 4}
 	a.Size = rapid.SampledFrom([]float64{0.25, 0.5, 1, 2, 4, 3, 5, 0.125, 10}).Draw(t, label+"size")
+	if rapid.IntRange(0, 3).Draw(t, label+"fine") == 0 {
+		// fine grids: bounds with many (exactly representable) decimals, a start that is
+		// much finer than the size
+		a.Start = float64(rapid.IntRange(-2048, 2048).Draw(t, label+"fineStart")) / 1024
+		a.Size = rapid.SampledFrom([]float64{1.0 / 64, 1.0 / 256, 1.0 / 1024, 1, 0.25, 3}).Draw(t, label+"fineSize")
+	}
 	a.Count = rapid.IntRange(0, 64).Draw(t, label+"count")
 	if rapid.IntRange(0, 3).Draw(t, label+"smallCount") != 0 {
 		a.Count = rapid.IntRange(0, 6).Draw(t, label+"count2")
